@@ -1080,6 +1080,65 @@ fn chain_case(rng: &mut Rng, g: &mut Gen, lit_ok: bool) -> (P, V) {
     }
 }
 
+
+/// A comparison-chain pattern with 2-3 free slots (optionally mixed with literals: `a < 5 < b`,
+/// `1 < a < b`) and a sequence with slots-1 .. slots+2 items, ascending or not: a multi-slot
+/// comparison unpacks the value like a sequence pattern without a splat, so it needs exactly as many
+/// items as it has slots.
+fn cmp_slots_case(rng: &mut Rng, g: &mut Gen, lit_ok: bool) -> (P, V) {
+    let slots = 2 + rng.below(2) as usize;
+    // operand layout: slots, with literals mixed in when allowed
+    let mut layout: Vec<bool> = vec![true; slots]; // true = slot
+    if lit_ok && rng.chance(1, 2) {
+        let at = rng.below(slots as u64 + 1) as usize;
+        layout.insert(at, false);
+    }
+    let asc = rng.chance(2, 3);
+    let ops: Vec<Cmp> = (0..layout.len() - 1)
+        .map(|_| if asc { rng.pick(&[Cmp::Lt, Cmp::Le, Cmp::Lt, Cmp::Ne]).clone() } else { gen_cmp(rng) })
+        .collect();
+    // items: slots + {-1, 0, 0, 0, +1, +1, +2}
+    let n = (slots as i64 + *rng.pick(&[-1i64, 0, 0, 0, 1, 1, 2])) as usize;
+    let ascending_items = rng.chance(3, 4);
+    let nums: Vec<i128> = (0..n).map(|i| if ascending_items { 2 * i as i128 + 1 } else { 9 - 3 * i as i128 + (i as i128 % 2) * 5 }).collect();
+    let value = match rng.below(6) {
+        0 => V::Vector(nums.iter().map(|x| V::Int(*x)).collect()),
+        1 if ascending_items && n >= 1 => V::Range(1, n as i64),
+        2 => V::Str("abcdef".chars().take(n).collect()),
+        3 => V::Bytes(nums.iter().map(|x| (*x as u8) % 200).collect()),
+        _ => V::List(nums.iter().map(|x| V::Int(*x)).collect()),
+    };
+    // operands: a literal sits strictly between / around what the neighbouring slots will receive
+    let mut args = vec![];
+    let mut k = 0usize;
+    for is_slot in &layout {
+        if *is_slot {
+            args.push(g.name(rng));
+            k += 1;
+        } else {
+            let lit = if matches!(value, V::Str(_)) {
+                V::Str(if k == 0 { "A".into() } else { "zz".into() })
+            } else if k == 0 {
+                V::Int(0)
+            } else if ascending_items {
+                V::Int(2 * k as i128) // between item k-1 (2k-1) and item k (2k+1)
+            } else {
+                V::Int(100)
+            };
+            args.push(P::Lit(lit));
+        }
+    }
+    let p = if rng.chance(1, 3) {
+        // unparenthesised: the chain evaluator merges the comparisons into one pattern
+        let mut it = args.into_iter();
+        let first = it.next().unwrap();
+        P::Chain(Box::new(first), ops.into_iter().map(|o| Bi::Cmp(vec![o])).zip(it).collect())
+    } else {
+        P::Destr(Bi::Cmp(ops), args)
+    };
+    (p, value)
+}
+
 fn gen_cmp(rng: &mut Rng) -> Cmp {
     rng.pick(&[Cmp::Lt, Cmp::Le, Cmp::Gt, Cmp::Ge, Cmp::Eq, Cmp::Ne, Cmp::Lt, Cmp::Le]).clone()
 }
@@ -1536,6 +1595,13 @@ fn gen_pattern_case(rng: &mut Rng) -> Case {
         forced = Some(p);
         v = cv;
     }
+    if forced.is_none() && rng.chance(1, 10) {
+        // multi-slot comparison patterns against sequences of every nearby length
+        let lit_ok = !(70..80).contains(&ctx) && ctx < 90;
+        let (p, cv) = cmp_slots_case(rng, &mut g, lit_ok);
+        forced = Some(p);
+        v = cv;
+    }
     let forced_cell = std::cell::RefCell::new(forced);
     let pat_for = |g: &mut Gen, rng: &mut Rng, v: &V| -> P {
         if let Some(p) = forced_cell.borrow_mut().take() {
@@ -1906,7 +1972,7 @@ fn main() {
                 identifiers, underscore, annotations with every builtin type / struct types / satisfying types / non-types, \
                 defaults, (un)delimited sequences with a splat at every position (plain and annotated), trailing defaults, \
                 wrong lengths, two splats, non-default after default, or / and, literals (incl. literally), every destructuring \
-                builtin (+ - * / .+ +. comparison chains, a non-destructuring builtin), unparenthesised infix operator patterns with 2-3 operators of different precedence levels (comparisons, + - .+ +. ++, * / // %) over literals and one or two binders, struct patterns; x values of every kind \
+                builtin (+ - * / .+ +. comparison chains incl. 2-3 free slots (mixed with literals) against sequences of slots-1 .. slots+2 items, a non-destructuring builtin), unparenthesised infix operator patterns with 2-3 operators of different precedence levels (comparisons, + - .+ +. ++, * / // %) over literals and one or two binders, struct patterns; x values of every kind \
                 (null, small/big ints, rationals incl. integral ones, floats incl. nan/inf/-0.0, complex, ASCII and non-ASCII strings, \
                 lists, dicts, vectors, bytes, finite and infinite streams, functions, types, struct instances); x binding contexts \
                 (switch arms, `:=` / `: T =`, `=` on typed existing variables incl. index paths, lambda parameters, catch, for). \
@@ -2251,6 +2317,28 @@ fn corpus() -> Vec<Case> {
         format!("switch (repeat(1)) case x0, x1 -> [0, {}] case ...x0, -> [1, {}] case [x0] -> [2, {}] case x0 -> [3, {}]", dump, dump, dump, dump),
         format!("switch {} E() stream-inf S(I0,I1) S(P(I0)) L(I0) I0", K),
         true,
+        false,
+    ));
+    // a multi-slot comparison needs exactly as many items as slots
+    v.push(mk(
+        "switch/destr:cmp",
+        format!("switch ([1, 2, 3]) case (x0 < x1) -> [0, {}] case (x0 < x1 < x2) -> [1, {}] case _ -> [2, {}]", dump, dump, dump),
+        format!("switch {} E() [1,2,3] Bcmp:lt(I0,I1) Bcmp:lt:lt(I0,I1,I2) U", K),
+        true,
+        false,
+    ));
+    v.push(mk(
+        "declare/anno>destr:cmp",
+        format!("(x0 < x1) := [1, 2, 3]; {}", dump),
+        format!("assign {} E() [1,2,3] A(Bcmp:lt(I0,I1))", K),
+        false,
+        false,
+    ));
+    v.push(mk(
+        "declare/anno>destr:cmp",
+        format!("(x0 < 5 < x1) := [1, 9, 10]; {}", dump),
+        format!("assign {} E() [1,9,10] A(Bcmp:lt:lt(I0,V(5),I1))", K),
+        false,
         false,
     ));
     // or without rollback
